@@ -104,7 +104,12 @@ def execute(spec):
         kw["backend"] = spec["backend"]
     if spec["graph"]:
         kw["graph"] = True
-    fn = getattr(einx, spec["fn"])
+    if spec["fn"].startswith("adapt:"):
+        # a numpy reduction adapted by einx (its generated code refers to the function as a constant)
+        fn = einx.numpy.adapt_numpylike_reduce(getattr(np, spec["fn"][6:]))
+        kw.pop("backend", None)
+    else:
+        fn = getattr(einx, spec["fn"])
     blocks = [einx.backend.get(b) for b in spec["blocks"]]
 
     def alarm(*a):
@@ -242,6 +247,12 @@ def gen_history(rng):
             for kind in rng.sample(["plain", "named", "kwargs", "sig"], 2):
                 variants.append(spec_of_call(c, rng, fkind=kind, fpos=i))
         variants.append(corrupt(spec_of_call(c, rng), rng))
+        if c.family == "reduce" and c.op in ("sum", "max", "min", "prod") and not c.extra_kwargs and np.asarray(c.arrays[0]).ndim > 0:
+            # the same reduction through adapted numpy functions, interleaved: compiled code of one must not pick up another's function
+            for name in rng.sample(["sum", "max", "min", "prod"], 3) + [c.op]:
+                sp = spec_of_call(c, rng)
+                sp["fn"] = "adapt:" + name
+                variants.append(sp)
         if "[" in c.desc and "->" in c.desc and c.family in ("reduce", "dot"):
             # the same call written without brackets (einx places them), followed by other operations on that very text
             bare = c.desc.replace("[", "").replace("]", "")
